@@ -483,7 +483,7 @@ class Gen(object):
         a += self.deprecated(0.15)
         body = self.attrs('      ')
         for i in range(rng.choice([0, 1, 2])):
-            body += self.field('      ', False)
+            body += self.field('      ', rng.random() < 0.2)
         for i in range(rng.choice([0, 1, 2])):
             body += self.function('      ', 'function', 't_' + nm.lower())[1]
         self.out.append(('boxed', nm, '    <glib:boxed%s>\n%s    </glib:boxed>\n' % (a, body)))
@@ -537,7 +537,7 @@ class Gen(object):
             a += ' copy-function="t_%s_copy" free-function="t_%s_free"' % (nm.lower(), nm.lower())
         body = self.attrs('      ')
         for i in range(n_fields):
-            body += self.field('      ', False)
+            body += self.field('      ', rng.random() < 0.2)      # a function pointer member: stored as gpointer in a union
         for i in range(n_methods):
             body += self.function('      ', rng.choice(['method', 'function', 'constructor']), 't_' + nm.lower(), owner=nm)[1]
         self.out.append(('union', nm, '    <union%s>\n%s    </union>\n' % (a, body)))
@@ -939,7 +939,14 @@ class Api(object):
                     ztv = 0 if (length is not None or fixed is not None) else 1
                 if gen:
                     ztv = 1 if zt == '1' else 0
-                ptr = 0 if (fixed is not None and ctx == 'field') else 1
+                if ctx == 'field' and fixed is not None:
+                    ptr = 0             # an array member of known size is stored in place
+                elif ctx == 'field' and length is None:
+                    # `T data[];` — a flexible array member is not a pointer unless its c:type says so
+                    act = t.get(cq('type'))
+                    ptr = 1 if (act is not None and act.endswith('*')) else 0
+                else:
+                    ptr = 1
             else:
                 length = fixed = None
                 ztv = 0
@@ -1069,7 +1076,9 @@ class Api(object):
         self.attrs(path, e)
         self.dump_callable(path, e, 'function')
 
-    def dump_field(self, path, e):
+    def dump_field(self, path, e, embeds=True):
+        """embeds: the container is a record or a class, the only ones whose fields can embed a callback blob;
+        in a union, boxed or interface a function pointer member is an untyped pointer"""
         gen = self.dialect == 'generate'
         readable = 0 if e.get('readable') == '0' else 1       # fields are readable unless readable="0"
         writable = 1 if e.get('writable') == '1' else 0
@@ -1082,7 +1091,9 @@ class Api(object):
             return
         self.attrs(path, e)
         cb = e.find(q('callback'))
-        if cb is not None and gen and cb.get('name') != e.get('name'):
+        if cb is not None and not embeds and not gen:
+            self.p('%s.t type tag=0 pointer=1' % path)
+        elif cb is not None and gen and (not embeds or cb.get('name') != e.get('name')):
             # girwriter.c write_field_info inlines the callback a field type REFERS to; read it as the reference
             self.p('%s.t type tag=16 pointer=*' % path)
             if self.kinds.get(cb.get('name')) == 2:
@@ -1208,7 +1219,7 @@ class Api(object):
             e.get('copy-function') or '(null)', e.get('free-function') or '(null)'))
         self.attrs(path, e)
         for j, f in enumerate(fields):
-            self.dump_field('%s.f%d' % (path, j), f)
+            self.dump_field('%s.f%d' % (path, j), f, embeds=e.tag != gq('boxed'))
         self.find_lines(path, 'f', [f.get('name') for f in fields])
         for j, m in enumerate(methods):
             self.dump_function('%s.m%d' % (path, j), m)
@@ -1222,7 +1233,7 @@ class Api(object):
             path, len(fields), len(methods), tn, ti, e.get('copy-function') or '(null)', e.get('free-function') or '(null)'))
         self.attrs(path, e)
         for j, f in enumerate(fields):
-            self.dump_field('%s.f%d' % (path, j), f)
+            self.dump_field('%s.f%d' % (path, j), f, embeds=False)
         for j, m in enumerate(methods):
             self.dump_function('%s.m%d' % (path, j), m)
         self.find_lines(path, 'm', [self.fname(m) for m in methods])
@@ -1743,8 +1754,10 @@ def run(ctx):
         cases.append(('generated', 'T%d' % k, g.text()))
         for lab, v in g.stats.counts.items():
             cnt.hit('gen:' + lab, v)
-    # malformed stream: the union-with-callback-field GIR (hypothesis of C09_sections_union) and one-edit mutants
-    cases.append(('malformed:union-callback-field', 'M0', UNION_CALLBACK_GIR % 'M0'))
+    # the union-with-callback-field GIR (hypothesis of C09_sections_union), then the malformed stream: one-edit mutants
+    # a union with a function pointer member: the compiler stores it as an untyped pointer (no embedded callback blob:
+    # hypothesis `union_fields_plain` of C09_sections_union, checked on every typelib by c09.check)
+    cases.append(('union-callback-field', 'M0', UNION_CALLBACK_GIR % 'M0'))
     n_mal = ctx.n(40, 400)
     for k in range(n_mal):
         src = rng.choice(gens)
@@ -1800,9 +1813,6 @@ def run(ctx):
         cnt.hit('case:%s' % c[0].split(':')[0])
         probs = judge(ctx, cnt, r, c[0])
         cnt.case(['gir', c[2]], nontrivial=r.get('compile_rc') == 0)
-        if c[0].startswith('malformed:union-callback-field') and r.get('compile_rc') == 0:
-            ctx.broken.append('g-ir-compiler now accepts a <callback> inside a union field: hypothesis of C09_sections_union is no longer '
-                              'guaranteed by the compiler (g_union_info_get_field has no embedded-callback loop)')
         if [p for p in probs if p not in PENDING_FINDINGS]:
             failing.append((c, r))
     n_rejected = cnt.counts.get('outside:compiler-rejected', 0)
